@@ -401,7 +401,28 @@ let cmd_output line =
      Buffer.add_string b (Printf.sprintf " END %d %s %d" (nat_to_int sf.s_iter) (s_of_f sf.s_time0) (z_to_int sf.s_file)));
   print_endline (Buffer.contents b)
 
-let commands : (string * (string -> unit)) list ref = ref [ ("output", cmd_output); ("params", cmd_params); ("vtk", cmd_vtk); ("population", cmd_population); ("replay", cmd_replay); ("forces", cmd_forces); ("geometry", cmd_geometry); ("valid", cmd_valid); ("cellcycle", cmd_cellcycle); ("kernel", cmd_kernel); ("grid", cmd_grid); ("integrate", cmd_integrate) ]
+(* ---------------------------------------------------------------- C17 the model's reader on a token stream *)
+let cmd_vtkread line =
+  let t = Array.of_list (toks line) in
+  let n = Array.length t in
+  let rec go i acc = if i >= n then List.rev acc else
+    match t.(i) with
+    | "KP" -> go (i+1) (KPoints :: acc) | "KC" -> go (i+1) (KCells :: acc) | "KT" -> go (i+1) (KCellTypes :: acc)
+    | "KD" -> go (i+1) (KCellData :: acc) | "KI" -> go (i+1) (KFieldTypeId :: acc) | "O" -> go (i+1) (KOther :: acc)
+    | "I" -> go (i+2) (I (int_to_n (int_of_string t.(i+1))) :: acc)
+    | "X" -> go (i+2) (X t.(i+1) :: acc)
+    | _ -> go (i+1) (KOther :: acc) in
+  let file = (try Some (go 0 []) with _ -> None) in
+  let sem (s : string) = match float_of_string_opt s with Some v when Float.is_finite v -> Some v | _ -> None in
+  match file with
+  | None -> print_endline "ERR Untokenisable"
+  | Some file ->
+    (match vtk_read sem file with
+     | Err e -> print_endline ("ERR " ^ (match e with ENoPoints -> "ENoPoints" | EBadNumber -> "EBadNumber" | ECount -> "ECount" | ENoCellTypes -> "ENoCellTypes"
+         | ENotPolyhedron -> "ENotPolyhedron" | ENoCells -> "ENoCells" | ECorrupt -> "ECorrupt" | EDangling -> "EDangling" | ENoTypeArray -> "ENoTypeArray"))
+     | Ok (ms, tys) -> Printf.printf "OK cells=%d types=%d\n" (List.length ms) (List.length tys))
+
+let commands : (string * (string -> unit)) list ref = ref [ ("vtkread", cmd_vtkread); ("output", cmd_output); ("params", cmd_params); ("vtk", cmd_vtk); ("population", cmd_population); ("replay", cmd_replay); ("forces", cmd_forces); ("geometry", cmd_geometry); ("valid", cmd_valid); ("cellcycle", cmd_cellcycle); ("kernel", cmd_kernel); ("grid", cmd_grid); ("integrate", cmd_integrate) ]
 
 let () =
   let cmd = Sys.argv.(1) in
